@@ -11,6 +11,7 @@ CLAIMED = {
     'C11': (T, Q, None),
     'C12': (T, Q, None),
     'C13': (T, Q, None),
+    'C17': (T, 'theorems about the pipeline skeleton, generic in evaluator and leaf; tied to the code by two-sided limit verdicts and the context probe hook', None),
     'C07': ('Coq proof over a Gallina state machine of the front-ends (abstract transform T, file system with name resolution and '
             'file identity) + history correspondence against library / svgdx binary / svgdx-server + oracle',
             'theorems for all T, all name spaces, all file systems, all request histories (induction); T instantiated by a measured table for execution',
